@@ -57,35 +57,32 @@ def _through_ref(place, adt, field):
     return False
 
 
-def _trace_place(du, operand, depth=12):
+def _trace_place(du, operand, depth=16):
     """Follow an operand through single-definition copies / moves / (re)borrows to the
-    place it denotes (independent of local names)."""
+    place it denotes (independent of local names).  A reference temporary is identified
+    with the place it points to."""
     p = Q.operand_place(operand)
     for _ in range(depth):
         if p is None:
             return None
         proj = p.get('p') or []
-        base_only = [e for e in proj if e != '*']
-        if base_only:
-            # (*_x).f...: resolve _x if it is a single-def borrow, else stop here
-            if proj and proj[0] == '*':
-                d = du.single_def(p['l'])
-                if d is not None and d[1] != 't' and d[2]['k'] == 'assign' and d[2]['rv']['k'] == 'ref':
-                    b = d[2]['rv']['pl']
-                    p = {'l': b['l'], 'p': (b.get('p') or []) + proj[1:]}
-                    continue
-            return p
         d = du.single_def(p['l'])
         if d is None or d[1] == 't' or d[2]['k'] != 'assign':
             return p
         rv = d[2]['rv']
         if rv['k'] == 'use' and Q.operand_place(rv['o']) is not None:
             q = Q.operand_place(rv['o'])
+            p = {'l': q['l'], 'p': (q.get('p') or []) + proj}
         elif rv['k'] == 'ref':
             q = rv['pl']
+            if proj and proj[0] == '*':
+                p = {'l': q['l'], 'p': (q.get('p') or []) + proj[1:]}
+            elif not proj:
+                p = {'l': q['l'], 'p': list(q.get('p') or [])}
+            else:
+                return p
         else:
             return p
-        p = {'l': q['l'], 'p': (q.get('p') or []) + [e for e in proj if e == '*'][:0]}
     return p
 
 
@@ -163,7 +160,7 @@ def r1(cx):
             if s['k'] != 'assign':
                 continue
             p = s['lhs'].get('p') or []
-            if p and p[-1] == '*' and MUT_JOB.search(_place_base_type(body, s['lhs'])):
+            if p and p[-1] == '*' and MUT_JOB.search(_place_base_type(F, body, s['lhs'])):
                 hit = True
                 n_whole += 1
                 cx.site('%s: whole Job overwritten through &mut Job at %s' % (body.fn, body.loc(s)))
@@ -200,19 +197,26 @@ def r1(cx):
             if body.root not in JOBLIST_BUILDERS:
                 cx.violation(body.root, 'joblist-constructed', 'a JobList value is assembled field by field outside '
                              'Default::default / Clone::clone', loc=body.loc(s))
-    cx.floor(counts['jobs'], 8, 'mutable uses of JobList::jobs')
-    cx.floor(counts['pids_to_indices'], 2, 'mutable uses of JobList::pids_to_indices')
-    cx.floor(counts['current_job_index'], 5, 'writes of JobList::current_job_index')
-    cx.floor(counts['previous_job_index'], 5, 'writes of JobList::previous_job_index')
+    cx.floor(counts['jobs'], 5, 'mutable uses of JobList::jobs')
+    cx.floor(counts['pids_to_indices'], 1, 'mutable uses of JobList::pids_to_indices')
+    cx.floor(counts['current_job_index'], 3, 'writes of JobList::current_job_index')
+    cx.floor(counts['previous_job_index'], 3, 'writes of JobList::previous_job_index')
     cx.sample({'field_uses': counts, 'state_writes_through_ref': n_state})
 
 
-def _place_base_type(body, place):
-    """Type string of the value dereferenced last in `place` (only for places of the
-    shape  local.*  /  (*local)  used by the whole-Job test)."""
+def _place_base_type(F, body, place):
+    """Type string of the reference dereferenced LAST in `place` (place ends with `*`)."""
     p = place.get('p') or []
     if p == ['*']:
         return body.locals[place['l']].get('ty', '')
+    if len(p) >= 2 and isinstance(p[-2], dict) and 'f' in p[-2] and p[-2].get('adt') in F.adts:
+        vs = F.adts[p[-2]['adt']]['variants']
+        vname = next((e['v'] for e in p[:-2][::-1] if isinstance(e, dict) and 'v' in e), None)
+        for v in vs:
+            if vname is None or v['name'] == vname:
+                for f in v['fields']:
+                    if f['name'] == p[-2]['f']:
+                        return f['ty']
     return ''
 
 
@@ -231,23 +235,18 @@ def r2(cx):
     F = cx.F
     n = 0
     for path, fn in F.fns.items():
-        if not (path.startswith('yash_env::job::') or '<yash_env::job::' in path or "yash_env::job::" in fn['output']):
-            continue
-        n += 1
+        if fn['vis'] != 'pub':
+            continue            # private helpers inside yash_env::job are covered by R1 (place scan)
+        if 'yash_env::job::' in path or 'yash_env::job::' in fn['output']:
+            n += 1
         for pat in LEAKY_TYPES:
             if pat.search(fn['output']):
-                cx.violation(path, 'returns:%s' % pat.pattern[:24], 'function returns `%s`: callers obtain unrestricted '
+                cx.violation(path, 'returns-mut-job', 'public function returns `%s`: callers obtain unrestricted '
                              'mutable access to a job in the table and can change its state or pid without the list '
                              're-selecting the current/previous job' % fn['output'],
                              loc='%s:%s' % (fn['file'], fn['line']))
+                break
     cx.cellcount(n)
-    # every function of the workspace: no parameter or result mentions &mut Job at all (today: none)
-    for path, fn in F.fns.items():
-        for ty in fn['inputs'] + [fn['output']]:
-            if MUT_JOB.search(ty) and not any(v['function'] == path for v in cx.violations):
-                cx.violation(path, 'signature-mentions-mut-job', 'signature mentions `&mut Job` (%s): the only holders of '
-                             'a raw mutable job reference are the bodies of JobList / JobRefMut / IterMut' % ty,
-                             loc='%s:%s' % (fn['file'], fn['line']))
     for path, adt in F.adts.items():
         if not path.startswith('yash_env::job::'):
             continue
@@ -261,7 +260,7 @@ def r2(cx):
     inner = rm['variants'][0]['fields']
     cx.require(len(inner) == 1 and MUT_JOB.search(inner[0]['ty']), 'JobRefMut is no longer a wrapper of &mut Job')
     cx.site('JobRefMut(%s) field visibility: %s' % (inner[0]['ty'], inner[0]['vis']))
-    if inner[0]['vis'] == 'pub' or inner[0]['vis'].startswith('pub(crate') or 'crate' == inner[0]['vis']:
+    if not re.search(r'^restricted\(DefId\(.*~ yash_env\[\w+\]::job\)\)$', inner[0]['vis']):
         cx.violation('yash_env::job::JobRefMut', 'inner-visible', 'the &mut Job inside JobRefMut is visible outside '
                      'yash_env::job', loc='%s:%s' % (rm['file'], rm['line']))
     have_deref = False
@@ -387,14 +386,28 @@ def r3(cx):
 
 
 # ------------------------------------------------------------------ R4
-MOVING = re.compile(r'^slab::Slab::<T>::(compact|drain|retain|remove|vacant_entry|vacant_key|shrink_to_fit|'
-                    r'get2_mut|get_disjoint_mut|key_of)$')
+MOVING = re.compile(r'^slab::Slab::<T>::(compact|drain|retain|vacant_entry|vacant_key|get2_mut|get_disjoint_mut)$|'
+                    r'slab::Slab<T> as core::iter::traits::collect::(IntoIterator|FromIterator)')
+
+
+def _is_empty_test(du, org, lab):
+    """`jobs.is_empty()` is true, or `jobs.len() == 0` is true / `jobs.len() != 0` is false."""
+    if Q.cond_is_call(org, [S + 'is_empty', JL + 'is_empty']):
+        return lab == ('bool', True)
+    if org['k'] == 'binop' and org['rv']['op'] in ('Eq', 'Ne'):
+        a, b = org['rv']['a'], org['rv']['b']
+        for x, y in ((a, b), (b, a)):
+            if str(y.get('c', '')).startswith('0') and 'cp' not in y and 'mv' not in y:
+                src = du.origin(x)
+                if Q.cond_is_call(src, [S + 'len', JL + 'len']):
+                    return lab == ('bool', org['rv']['op'] == 'Eq')
+    return False
 
 
 @RS.rule('C12.R4', 'K-CALLERS', 'job numbers never move: no compact/drain/retain on the job slab; clear() only on the is_empty() edge')
 def r4(cx):
     F = cx.F
-    calls = F.callers_of(lambda names, t: any(n.startswith('slab::') or '<slab::' in n or 'slab::Slab<' in n for n in names))
+    calls = F.callers_of(lambda names, t: any('slab::' in n for n in names))
     cx.floor(len(calls), 10, 'slab operations in the workspace')
     n_clear = 0
     for body, b, t in calls:
@@ -404,19 +417,14 @@ def r4(cx):
         cx.fn(body.fn)
         if not on_jobs:
             continue
-        if any(MOVING.search(n) for n in Q.callee_names(t)) and not name.endswith('::remove') and \
-                not name.endswith('shrink_to_fit'):
+        if any(MOVING.search(n) for n in Q.callee_names(t)) and not name.startswith('<&'):
             cx.violation(body.root, 'slab-op:%s' % name.split('::')[-1], 'slab operation %s on the job slab can renumber, '
                          'mass-remove or alias live jobs behind the pid index' % name, loc=body.loc(t))
-        if name == S + 'remove':
-            cx.violation(body.root, 'slab-op:remove', 'Slab::remove panics on a vacant index; JobList::remove must use '
-                         'try_remove', loc=body.loc(t))
         if name == S + 'clear':
             n_clear += 1
             du = Q.DefUse(body)
             conds = Q.dominating_conditions(F, body, du, b)
-            if not any(Q.cond_is_call(org, [S + 'is_empty', JL + 'is_empty']) and lab == ('bool', True)
-                       for org, lab, e in conds):
+            if not any(_is_empty_test(du, org, lab) for org, lab, e in conds):
                 cx.violation(body.root, 'clear-unguarded', 'jobs.clear() is not dominated by the is_empty() == true edge: '
                              'it would drop live jobs (and leave their pids in the index)', loc=body.loc(t))
             if body.root != JL + 'remove':
